@@ -63,7 +63,7 @@ Definition dist2 (a b : vec) : F := dot n (vsub a b) (vsub a b).
 (* error_value < eps_proj_physical  (strict) *)
 Definition ltb (a b : F) : bool := negb (kleb F b a).
 
-Record run := mkrun {
+Record runres := mkrun {
   r_final : dstate;                 (* the state whose x is returned *)
   r_hist : list dstate;             (* history["x"|"y"|"p"|"q"], including the initial entry *)
   r_errs : list (option F);         (* history["error_value"]; None for the first sweep *)
@@ -71,7 +71,7 @@ Record run := mkrun {
   r_steps : nat }.                  (* number of sweeps executed = k + 1 at exit *)
 
 (* for k in range(max_iteration): sweep; if k >= 1: test; record; if is_stopping: break *)
-Fixpoint loop (eps : F) (fuel k : nat) (s : dstate) (hist : list dstate) (errs : list (option F)) : run :=
+Fixpoint loop (eps : F) (fuel k : nat) (s : dstate) (hist : list dstate) (errs : list (option F)) : runres :=
   match fuel with
   | O => mkrun s hist errs false k
   | S f =>
@@ -83,19 +83,23 @@ Fixpoint loop (eps : F) (fuel k : nat) (s : dstate) (hist : list dstate) (errs :
   end.
 
 (* max_iteration = 0: the code dereferences the unbound loop variable (UnboundLocalError) -> None *)
-Definition run_dykstra (eps : F) (max_iter : nat) (x0 : vec) : option run :=
+Definition run_dykstra (eps : F) (max_iter : nat) (x0 : vec) : option runres :=
   match max_iter with
   | O => None
   | _ => Some (loop eps max_iter 0 (init x0) [init x0] [])
   end.
 (* `if k == max_iteration - 1: print(Warning ...)` — also printed when the LAST allowed sweep converged *)
-Definition warned (max_iter : nat) (r : run) : bool := Nat.eqb (r_steps r) max_iter.
+Definition warned (max_iter : nat) (r : runres) : bool := Nat.eqb (r_steps r) max_iter.
 (* out of fuel proper: the loop ended without `break`; the last iterate is returned all the same *)
-Definition out_of_fuel (r : run) : bool := negb (r_stopped r).
+Definition out_of_fuel (r : runres) : bool := negb (r_stopped r).
 End Dykstra.
 
 Arguments mkst {F} _ _ _ _. Arguments sx {F} _ _. Arguments sy {F} _ _. Arguments sp {F} _ _. Arguments sq {F} _ _.
 Arguments r_final {F} _. Arguments r_hist {F} _. Arguments r_errs {F} _. Arguments r_stopped {F} _. Arguments r_steps {F} _.
+
+(* what [frz] has to satisfy (the executable instance is Exec.Base.vfreeze, see vfreeze_spec) *)
+Definition frz_ok (F : OF) (n : nat) (frz : @vec F -> @vec F) : Prop :=
+  forall v i, (i < n)%nat -> frz v i = v i.
 
 (* mode_proj_order: "eq_ineq" -> first = equality projection; anything else that passed validation = "ineq_eq" *)
 Section Mode.
@@ -108,6 +112,6 @@ Definition step_mode (eq_first : bool) : nat -> dstate F -> dstate F :=
   step F frz (first_proj eq_first) (second_proj eq_first).
 Definition iter_mode (eq_first : bool) : nat -> dstate F -> dstate F :=
   iter F frz (first_proj eq_first) (second_proj eq_first).
-Definition run_mode (eq_first : bool) (eps : F) (max_iter : nat) (x0 : vec) : option (run F) :=
+Definition run_mode (eq_first : bool) (eps : F) (max_iter : nat) (x0 : vec) : option (runres F) :=
   run_dykstra F n frz (first_proj eq_first) (second_proj eq_first) eps max_iter x0.
 End Mode.
